@@ -14,6 +14,8 @@ pub const FUEL: usize = 12;
 struct Hier {
     ntraits: usize,
     nparams: Vec<usize>,
+    /// per trait: its where-clauses as (subject `Self`/`P0`, trait, argument `S0`/`Self`/`P0`)
+    wcs: Vec<Vec<(String, usize, Option<String>)>>,
     nstructs: usize,
     arities: Vec<usize>,
     text: String,
@@ -21,7 +23,8 @@ struct Hier {
 
 fn gen(rng: &mut Rng) -> Hier {
     let nt = 2 + rng.usize_below(4);
-    let nparams: Vec<usize> = (0..nt).map(|_| if rng.chance(1, 4) { 1 } else { 0 }).collect();
+    let nparams: Vec<usize> = (0..nt).map(|_| if rng.chance(1, 3) { 1 } else { 0 }).collect();
+    let mut all_wcs: Vec<Vec<(String, usize, Option<String>)>> = vec![];
     let ns = 2 + rng.usize_below(2);
     let arities: Vec<usize> = (0..ns).map(|i| if i == 0 { 0 } else { rng.usize_below(2) }).collect();
     let mut s = String::new();
@@ -31,12 +34,19 @@ fn gen(rng: &mut Rng) -> Hier {
     for i in 0..nt {
         // where-clauses: supertraits (possibly cyclic / diamond), bounds on the trait's parameter
         let mut wcs = vec![];
+        let mut structured = vec![];
         for _ in 0..rng.weighted(&[2, 4, 2]) {
             let j = rng.usize_below(nt);
             let subject = if nparams[i] == 1 && rng.chance(1, 3) { "P0" } else { "Self" };
-            let args = if nparams[j] == 1 { format!("<{}>", if rng.chance(1, 2) { "S0".to_string() } else { subject.to_string() }) } else { String::new() };
+            // the argument is S0, the subject itself, or the OTHER variable of the trait
+            // (`trait T<P0> where P0: T<Self>`: a bound on the trait being declared, at other arguments)
+            let other = if subject == "P0" { "Self" } else if nparams[i] == 1 { "P0" } else { "Self" };
+            let arg: Option<String> = if nparams[j] == 1 { Some(rng.pick(&["S0", subject, other]).to_string()) } else { None };
+            let args = arg.as_ref().map(|a| format!("<{}>", a)).unwrap_or_default();
             wcs.push(format!("{}: T{}{}", subject, j, args));
+            structured.push((subject.to_string(), j, arg));
         }
+        all_wcs.push(structured);
         s.push_str(&format!(
             "trait T{}{}{} {{}}\n",
             i,
@@ -56,25 +66,52 @@ fn gen(rng: &mut Rng) -> Hier {
             s.push_str(&format!("impl T{}{} for S{} {{}}\n", t, targ, i));
         }
     }
-    Hier { ntraits: nt, nparams, nstructs: ns, arities, text: s }
+    Hier { ntraits: nt, nparams, wcs: all_wcs, nstructs: ns, arities, text: s }
 }
 
 fn bound(rng: &mut Rng, h: &Hier, subject: &str) -> String {
     let t = rng.usize_below(h.ntraits);
-    let a = if h.nparams[t] == 1 { format!("<{}>", if rng.chance(1, 2) { "S0" } else { subject }) } else { String::new() };
+    // the trait's argument: S0, the subject, or one of the two universally quantified variables
+    let a = if h.nparams[t] == 1 { format!("<{}>", *rng.pick(&["S0", subject, "X", "Y"])) } else { String::new() };
     format!("{}: T{}{}", subject, t, a)
 }
 
 fn goal_pair(rng: &mut Rng, h: &Hier) -> (String, String) {
-    // conclusion about X or about a struct applied to X
+    // conclusion about X, Y, S0 or about a struct applied to X (hypotheses about X or Y: with a trait
+    // parameter the consequence of `X: T<Y>` may be a bound on Y or on S0, e.g. `Y: T<X>`)
     let unary: Vec<usize> = (0..h.nstructs).filter(|i| h.arities[*i] == 1).collect();
-    let subject = if !unary.is_empty() && rng.chance(1, 3) { format!("S{}<X>", rng.pick(&unary)) } else { "X".to_string() };
-    let concl = bound(rng, h, &subject);
+    let subject = if !unary.is_empty() && rng.chance(1, 4) {
+        format!("S{}<X>", rng.pick(&unary))
+    } else {
+        rng.pick(&["X", "X", "Y", "S0"]).to_string()
+    };
+    let mut concl = bound(rng, h, &subject);
     let nh = 1 + rng.usize_below(2);
-    let hyps: Vec<String> = (0..nh).map(|_| bound(rng, h, "X")).collect();
+    let mut hyps: Vec<String> = (0..nh).map(|_| { let sub = *rng.pick(&["X", "X", "Y"]); bound(rng, h, sub) }).collect();
+    // half of the pairs are DIRECTED by the program: the hypothesis is an instance `A: Ti<B>` of a trait
+    // that has where-clauses and the conclusion is one of them at that instance (followed one step
+    // further when the implied trait has where-clauses too), so that real consequences are frequent
+    let with_wcs: Vec<usize> = (0..h.ntraits).filter(|i| !h.wcs[*i].is_empty()).collect();
+    if !with_wcs.is_empty() && rng.chance(1, 2) {
+        let i = *rng.pick(&with_wcs);
+        let a = rng.pick(&["X", "Y", "S0"]).to_string();
+        let b = rng.pick(&["Y", "X", "S0"]).to_string();
+        let inst = |v: &str, a: &str, b: &str| -> String { match v { "Self" => a.to_string(), "P0" => b.to_string(), o => o.to_string() } };
+        hyps[0] = format!("{}: T{}{}", a, i, if h.nparams[i] == 1 { format!("<{}>", b) } else { String::new() });
+        let (sub, j, arg) = rng.pick(&h.wcs[i]).clone();
+        let (mut ca, mut cj, mut cb) = (inst(&sub, &a, &b), j, arg.map(|x| inst(&x, &a, &b)));
+        if !h.wcs[cj].is_empty() && rng.chance(1, 3) {
+            let (sub2, j2, arg2) = rng.pick(&h.wcs[cj]).clone();
+            let b2 = cb.clone().unwrap_or_else(|| "S0".to_string());
+            let na = inst(&sub2, &ca, &b2);
+            let nb = arg2.map(|x| inst(&x, &ca, &b2));
+            ca = na; cj = j2; cb = nb;
+        }
+        concl = format!("{}: T{}{}", ca, cj, cb.map(|x| format!("<{}>", x)).unwrap_or_default());
+    }
     (
-        format!("forall<X> {{ if ({}) {{ {} }} }}", hyps.join("; "), concl),
-        format!("forall<X> {{ {} }}", concl),
+        format!("forall<X, Y> {{ if ({}) {{ {} }} }}", hyps.join("; "), concl),
+        format!("forall<X, Y> {{ {} }}", concl),
     )
 }
 
